@@ -47,7 +47,11 @@ func ScanBuf(br *bufio.Reader) (imageType ImageType, err error) {
 // identified.
 func ReadAt(r io.ReaderAt) (imageType ImageType, err error) {
 	buf := [searchHeaderLength]byte{}
-	if _, err = r.ReadAt(buf[:], 0); err != nil {
+	// an io.ReaderAt may return io.EOF together with a full read
+	if n, err := r.ReadAt(buf[:], 0); n < searchHeaderLength {
+		if err == nil {
+			err = io.ErrUnexpectedEOF
+		}
 		return ImageUnknown, err
 	}
 
